@@ -225,6 +225,11 @@ pub enum TlsConnectionError<E> {
     #[error("No domain found in URI")]
     NoDomain,
 
+    /// The host of the request URI is neither a DNS name nor an IP address, so it can't be
+    /// offered as, or verified against, a TLS server name.
+    #[error("Invalid TLS server name in URI: {0:?}")]
+    InvalidServerName(String),
+
     /// The TLS feature is disabled, but TLS was requested.
     #[error("TLS is not enabled, can't connect to https")]
     TlsDisabled,
